@@ -132,6 +132,15 @@ def strip_value(f, n):
     n = f.strip(n)
     while n is not None and n["k"] in ("CXXConstructExpr", "CXXTemporaryObjectExpr") and len(f.args(n)) == 1:
         n = f.strip(f.args(n)[0])   # implicit conversion such as const char* -> SimpleString
+    if n is not None and n["k"] == "UnaryOperator" and n.get("op") == "!":
+        # !(x == 0) is the same int-to-bool idiom
+        inner = f.strip(n["c"][0])
+        if inner is not None and inner["k"] == "BinaryOperator" and inner.get("op") == "==":
+            l, r = f.strip(f.node(inner["lhs"])), f.strip(f.node(inner["rhs"]))
+            if r is not None and r["k"] == "IntegerLiteral" and r.get("v") == 0:
+                return l, True
+            if l is not None and l["k"] == "IntegerLiteral" and l.get("v") == 0:
+                return r, True
     if n is not None and n["k"] == "BinaryOperator" and n.get("op") == "!=":
         l, r = f.strip(f.node(n["lhs"])), f.strip(f.node(n["rhs"]))
         if r is not None and r["k"] == "IntegerLiteral" and r.get("v") == 0:
